@@ -64,6 +64,9 @@ def run(ctx):
         k = "%s: rejected at event '%s' (%s pool, %s)" % (sig.get("scenario"), sig.get("event"), sig.get("pool"), sig.get("phase"))
         o = obs.setdefault(k, {"executions": 0, "example": desc[:700], "schedule": rp.get("schedule")})
         o["executions"] += 1
+    if worlds:
+        ctx.sample({"scenario": {k: v for k, v in ws[0].items() if k != "judge"}, "schedule": worlds[0].schedule[:40],
+                    "events": [e["op"] for e in worlds[0].events][:30]})
     ctx.extra["executions"] = len(worlds)
     ctx.extra["observations_outside_the_listed_properties"] = obs
     ctx.extra["scenarios"] = [{k: v for k, v in s.items() if k != "judge"} for s in scens]
